@@ -215,15 +215,13 @@ def slice_rule(ctx):
         ctx.ob('SLICE', 'SliceRead', False, None, 'anchor not found')
     else:
         ctx.touched(b)
-        sp = [(bb, t) for bb, t in b.calls() if call_matches(t, ['slice::<impl [T]>::split_at'])]
+        sp = [(bb, t) for bb, t in b.calls() if call_matches(t, SPLIT_AT)]
         ok = len(sp) == 1
         g_ok = rest = vis = False
         if ok:
             bb, t = sp[0]
             no = origin(b, t['args'][1])
-            for g in cmp_guards(b, bb):
-                if g['op'] == 'Le' and g['l'].params() == {2} and 'len' in g['r'].flags and 'slice' in g['r'].fields:
-                    g_ok = all(all_paths_err(b, s) for s in g['other'])
+            g_ok = split_is_bounded(b, bb, t, n_params={2}, need_slice_field=True) and 'slice' in origin(b, t['args'][0]).fields
             # self.slice = end (tuple .1 of split_at), visitor gets start (.0)
             for sbb in b.live_blocks():
                 for s in b.stmts(sbb):
@@ -370,14 +368,10 @@ def take_rule(ctx):
     b = fn_by_label(f, '<de::read::SliceRead as de::read::take::Take>::take')
     if b is not None:
         ctx.touched(b)
-        sp = [(bb, t) for bb, t in b.calls() if call_matches(t, ['slice::<impl [T]>::split_at'])]
+        sp = [(bb, t) for bb, t in b.calls() if call_matches(t, SPLIT_AT)]
         ok = len(sp) == 1
         if ok:
-            g_ok = False
-            for g in cmp_guards(b, sp[0][0]):
-                if g['op'] == 'Le' and g['l'].params() == {2} and 'len' in g['r'].flags:
-                    g_ok = all(all_paths_err(b, s) for s in g['other'])
-            ok = g_ok and origin(b, sp[0][1]['args'][1]).params() == {2}
+            ok = split_is_bounded(b, sp[0][0], sp[0][1], n_params={2})
         ctx.ob('TAKE', 'SliceRead::take', ok, short_loc(b.span), 'block split off with split_at(block_size) under block_size <= len (else Err): %s' % ok)
     else:
         ctx.ob('TAKE', 'SliceRead::take', False, None, 'anchor not found')
@@ -496,6 +490,26 @@ def header_rule(ctx):
                     datum_ok = any(c is t for c in o2.calls) and not o2.has_arith()
             okh = at.consts() == {10} and not at.params() and origin(sb, t['args'][0]).params() == {1} and guarded and datum_ok
             form = 'header, datum = slice.split_at(10) under len >= 10 (else Err): %s; datum handed to from_datum_slice: %s' % (guarded, datum_ok)
+    if not okh:
+        # ... or `let Some((header, datum)) = slice.split_first_chunk::<10>() else { return Err(..) }`
+        sp = [(bb, t) for bb, t in sb.calls() if call_matches(t, ['slice::<impl [T]>::split_first_chunk'])]
+        if len(sp) == 1:
+            bb, t = sp[0]
+            n_ = (t.get('substs') or [None, None])[-1]
+            none_errs = False
+            for d in sb.live_blocks():
+                if sb.is_cleanup(d) or sb.term(d).get('k') != 'switch':
+                    continue
+                si = sb.switch_info(d)
+                if si.get('kind') == 'enum' and (si.get('adt') or '').endswith('option::Option') and any(c is t for c in origin(sb, si['place']).calls):
+                    tgt = si['variants'].get('None', si.get('otherwise'))
+                    none_errs = tgt is not None and all_paths_err(sb, tgt)
+            datum_ok = False
+            for b2, t2 in sb.calls():
+                if cname(t2).endswith('from_datum_slice'):
+                    datum_ok = index_path_from_call(sb, t2['args'][0], t) == [0, 1]
+            okh = str(n_) == '10' and origin(sb, t['args'][0]).params() == {1} and none_errs and datum_ok
+            form = 'header, datum = slice.split_first_chunk::<%s>() with None => Err: %s; datum (the rest) handed to from_datum_slice: %s' % (n_, none_errs, datum_ok)
     ctx.ob('HEADER', 'slice', okh, short_loc(sb.span), form)
     re = [(bb, t) for bb, t in rb.calls() if (t.get('callee') or '') == 'std::io::Read::read_exact']
     ok = len(re) == 1
